@@ -140,3 +140,12 @@ func vpoolGet(s *channelState) {
 func vpoolPut(s *channelState) {
 	vpool.Emit("mpx.channelState", unsafe.Pointer(s), true, 0)
 }
+
+// vtrok traces a point with a boolean result (a = 1 when ok).
+func vtrok(event string, id bin.Bin128, ok bool) {
+	var a int64
+	if ok {
+		a = 1
+	}
+	vtr(event, id, a, 0)
+}
